@@ -9,7 +9,7 @@ Oracle: reference dataset model (lists of frozensets), recomputed from scratch a
 import numpy as np
 
 from .. import gen, model, sched
-from ..lib import (build_dataset, call, canon_ranking, canon_rankings, exc_label, key_of, jsonable_ranking, Dataset,
+from ..lib import (build_dataset, build_bucket, call, canon_ranking, canon_rankings, exc_label, key_of, jsonable_ranking, Dataset,
                    Ranking, Element, EmptyDatasetException, PickAPerm, BordaCount, build_scheme)
 from ..simfs import SimFS
 from ..seed import digest
@@ -28,7 +28,7 @@ ASSUMPTIONS = ["views are judged against the object's own buckets (what the rank
                "C16/after-failed-mutator reads 'after any sequence' as including sequences with a refused removal"]
 EXPECTED_PROBES = ["mutator_changed", "mutator_failed", "unified_checked", "projection_checked", "views_checked",
                    "live_rechecked", "child_mutated",
-                   "consensus_ranking_checked", "from_file_ctor", "generator_ctor"]
+                   "consensus_ranking_checked", "from_file_ctor", "generator_ctor", "inputs_clobbered"]
 STATES_MEASURE = "distinct (op kind, outcome, dataset shape) triples"
 
 
@@ -70,6 +70,10 @@ def gen_case(st, tier, env):
             ops.append({"op": "mutate_child", "which": w.randrange(64), "pick": [w.randrange(64)],
                         "how": w.choice(["remove_elements", "remove_empty_rankings", "remove_rate"]),
                         "rate": w.choice([0.3, 0.6])})
+        elif r < 0.968:
+            # the caller edits, after a construction, the very sets / lists it handed to the Ranking constructor
+            ops.append({"op": "clobber_inputs", "how": w.choice(["clear", "add", "refill", "append_bucket"]),
+                        "as_elements": w.random() < 0.5})
         elif r < 0.975:
             # an illegal construction: the same name (after the library's own normalisation) in two buckets, adjacent
             # or not; the API must refuse it or hand out a ranking whose buckets are disjoint
@@ -77,6 +81,10 @@ def gen_case(st, tier, env):
                         "nb": w.randint(2, 5), "at": [w.randrange(64), w.randrange(64)]})
         else:
             ops.append({"op": "views"})
+    if w.random() < 0.04:
+        ops.insert(w.randrange(len(ops) + 1),
+                   {"op": "clobber_inputs", "how": w.choice(["clear", "add", "refill", "append_bucket"]),
+                    "as_elements": w.random() < 0.5})
     case["ops"] = ops
     return case
 
@@ -428,6 +436,51 @@ def run_case(case, ctx):
             for n_r, r0 in enumerate(got):
                 bads += ranking_views(r0, f"{via}(overlapping)[{n_r}]")
             report(bads, "C16/derived-views", kind, {"via": via})
+            ctx.probe("derived_checked")
+        elif kind == "clobber_inputs":
+            # a ranking owns its buckets: the sets and lists the caller built it from stay the caller's, and editing
+            # them after the construction (the scratch-set idiom) must not reach the ranking
+            as_el = bool(op.get("as_elements"))
+            caller_inputs = [[build_bucket(sorted(b, key=model.sort_key), as_el) for b in r] for r in before]
+            okc, objs = call(lambda: [Ranking(raw) for raw in caller_inputs])
+            if not okc:
+                continue
+            want = [canon_ranking(r0) for r0 in objs]
+            # ... and a dataset owns its list of rankings: the caller's list stays the caller's as well
+            caller_list = list(objs)
+            okd2, ds2 = call(Dataset, caller_list) if objs else (False, None)
+            want_ds2 = canon_rankings(ds2.rankings) if okd2 else None
+            if op["how"] in ("clear", "refill"):
+                caller_list.clear()
+            else:
+                caller_list.reverse()
+                caller_list.append(Ranking([{"clobbered"}]))
+            for n_r, raw in enumerate(caller_inputs):
+                if op["how"] == "append_bucket":
+                    raw.append({"clobbered-%d" % n_r})
+                    continue
+                for n_b, bucket in enumerate(raw):
+                    if op["how"] == "clear":
+                        bucket.clear()
+                    elif op["how"] == "add":
+                        bucket.add(Element("clobbered") if as_el else "clobbered")
+                    else:  # emptied and refilled with what comes next
+                        nxt = list(raw[(n_b + 1) % len(raw)])
+                        bucket.clear()
+                        bucket.update(nxt)
+            ctx.probe("inputs_clobbered")
+            bads = []
+            for n_r, r0 in enumerate(objs):
+                if canon_ranking(r0) != want[n_r]:
+                    bads.append((f"Ranking(caller's sets)[{n_r}] after the caller edited its own sets",
+                                 jsonable_ranking(canon_ranking(r0)), jsonable_ranking(want[n_r])))
+                bads += ranking_views(r0, f"Ranking(caller's sets)[{n_r}]")
+            if okd2:
+                if canon_rankings(ds2.rankings) != want_ds2:
+                    bads.append(("Dataset(caller's list) after the caller edited its own list and sets",
+                                 model.canon(canon_rankings(ds2.rankings)), model.canon(want_ds2)))
+                bads += dataset_views(ds2, "Dataset(caller's list)")
+            report(bads, "C16/derived-views", kind, {"how": op["how"], "as_elements": as_el})
             ctx.probe("derived_checked")
         elif kind == "parse":
             # a ranking obtained by parsing the text of one of the dataset's rankings
